@@ -237,7 +237,7 @@ func main() {
 			child = &childExec{}
 			defer child.stop()
 		}
-		hung := 0
+		hung, slow := 0, 0
 		g.emit = func(line string) {
 			if *filter != "" && !strings.HasPrefix(line, *filter) {
 				return
@@ -250,11 +250,22 @@ func main() {
 				g.Count("skipped-after-3-hangs")
 				return // three cases already hung: the remaining ones are not run (each would cost a full time-out)
 			}
+			if slow >= 40 {
+				// forty cases that each ran into an internal wait: on sources where the suite's expectations hold no case
+				// waits, so the remaining cases would only repeat the same failure at the same price
+				g.Count("skipped-after-40-slow-cases")
+				return
+			}
 			var out string
+			t0 := time.Now()
 			if child != nil {
 				out = child.exec(line)
 			} else {
 				out = execLine(line)
+			}
+			if d := time.Since(t0); d > 2500*time.Millisecond {
+				slow++
+				g.Count("slow-cases(>2.5s)")
 			}
 			// an Exec may return "out<TAB>obs": obs (what the implementation produced, e.g. wire bytes with
 			// random mask keys) is appended to the case line so that the driver can examine it
